@@ -1,6 +1,7 @@
 import Acra.Drv.FTI
+import Acra.Drv.Float
 import Acra.Drv.Mpeg
 namespace Acra.Drv
 def allCodecs : List Codec := ftiCodecs ++ Mpeg.mpegCodecs
-def allFuncs : List Func := ftiFuncs ++ Mpeg.mpegFuncs
+def allFuncs : List Func := ftiFuncs ++ floatFuncs ++ Mpeg.mpegFuncs
 end Acra.Drv
